@@ -288,7 +288,7 @@ def _mk_seq_any(**s):
     return {"id": s["i0"], "v": bytes(inner)}
 
 
-P_SEQ_ANY = {"i0": SMALL, "i1": I(0, 127), "w": I(0, 2), "n": I(0, 2), "o0": BYTE, "o1": BYTE}
+P_SEQ_ANY = {"i0": SMALL, "i1": I(0, 127), "w": I(0, 1), "n": I(0, 2), "o0": BYTE, "o1": BYTE}
 
 
 SEQ_ANY_DEF = T("SEQ", comps=[("version", INT, "def", 0), ("readings", T("SEQOF", elem=INT), "req", None), ("names", T("SETOF", elem=OCTS), "opt", None),
@@ -478,6 +478,10 @@ def constructed():
     C.append(Entry("seqof_seq", T("SEQOF", elem=_seq_basic("SEQ")), dict(P_SEQ_BASIC, k=I(0, 2)), lambda **s: [_mk_seq_basic(**s), {"a": s["i0"]}][: s["k"]], ["constructed", "list", "nested"], shard=("k", "hb")))
     C.append(Entry("seqof_choice", T("SEQOF", elem=CH), dict(P_CHOICE, k=I(0, 2)), lambda **s: [_mk_choice(**s), ("x", 7)][: s["k"]], ["constructed", "list", "nested", "choice"]))
     C.append(Entry("seq_any", SEQ_ANY, P_SEQ_ANY, _mk_seq_any, ["constructed", "record", "any"]))
+    # ANY holding an indefinite-length TLV that holds another one: a value BER and CER can carry, DER cannot ("ber_only": kept out of every
+    # harness that involves the DER codec, see props/common.all_entries)
+    C.append(Entry("seq_any_indef", SEQ_ANY, dict(P_SEQ_ANY, w=("const", 2)), _mk_seq_any, ["constructed", "record", "any", "ber_only"]))
+    C.append(Entry("seq_any_indef.E", SEQ_ANY_TAGGED, dict(P_SEQ_ANY, w=("const", 2), hv=B), _mk_seq_any_tagged, ["constructed", "record", "any", "ber_only"]))
     C.append(Entry("seq_any.E", SEQ_ANY_TAGGED, dict(P_SEQ_ANY, hv=B), _mk_seq_any_tagged, ["constructed", "record", "any"]))
     C.append(Entry("seq_hitags", SEQ_HITAGS, P_SEQ_HITAGS, _mk_seq_hitags, ["constructed", "record", "tagged_members"], shard=("hb", "he")))
     C.append(Entry("seq_hitags.E", SEQ_HITAGS_E, {"i0": SMALL, "i1": I(0, 1), "hc": B, "o0": BYTE, "n": I(0, 1)}, _mk_seq_hitags_e,
